@@ -530,3 +530,29 @@ where
         self.data.Rinv.data().to_vec()
     }
 }
+
+// ---------------------------------------------
+// verification hooks (read-only accessors to the factorisations behind update_scaling)
+// ---------------------------------------------
+#[cfg(clarabel_verif)]
+impl<T> PSDTriangleCone<T>
+where
+    T: FloatT,
+{
+    /// Cholesky factors L1 (of S) and L2 (of Z), n x n column major
+    pub fn verif_chol_L(&self) -> (Vec<T>, Vec<T>) {
+        (self.data.chol1.L.data().to_vec(), self.data.chol2.L.data().to_vec())
+    }
+    /// SVD of L2'L1: (U, singular values, Vt), matrices n x n column major
+    pub fn verif_svd(&self) -> (Vec<T>, Vec<T>, Vec<T>) {
+        (
+            self.data.SVD.U.data().to_vec(),
+            self.data.SVD.s.to_vec(),
+            self.data.SVD.Vt.data().to_vec(),
+        )
+    }
+    /// the stored Λ^(-1/2)
+    pub fn verif_lambda_isqrt(&self) -> &[T] {
+        &self.data.Λisqrt
+    }
+}
